@@ -16,7 +16,7 @@ def one(d):
     if not todo:
         return d, 'skip', m
     name = os.path.basename(d)
-    wt, out = f'/tmp/re-wt-{name}', f'/tmp/re-out-{name}'
+    wt, out = f'/tmp/re-wt-{name}-{os.getpid()}', f'/tmp/re-out-{name}-{os.getpid()}'
     subprocess.run(['git', '-C', '/repo', 'worktree', 'add', '-q', '--detach', wt, 'HEAD'], check=True)
     try:
         r = subprocess.run(['git', '-C', wt, 'apply', d + '/patch.diff'], capture_output=True, text=True)
